@@ -521,6 +521,33 @@ A64_LOADS = [("ldr x7, [x1, #8]", "x1"), ("ldr x7, [x2, #8]", "x2"), ("ldr x7, [
              ("ldr x1, [x1, #8]", "x1"), ("ldr x2, [x2, #8]", "x2")]
 
 
+QUICK_MENU = (0, 1, 3, 4, 5, 6, 8, 9)       # quick tier: without 'sub' and 'inc' (their arithmetic is covered by the single-bump cells)
+
+
+def x86_seq2q(k0: int, k1: int, i0: int, i1: int, d1: int, d2: int, ld: int) -> bool:
+    """
+    pre: 0 <= k0 < 10 and 0 <= k1 < 10 and 0 <= ld < 5
+    post: _
+    """
+    if skip(locals()):
+        return True
+    if all(k0 != q for q in QUICK_MENU) or all(k1 != q for q in QUICK_MENU) or ld == 1:
+        return True
+    return x86_seq2(k0, k1, i0, i1, d1, d2, ld)
+
+
+def a64_seq2q(k0: int, k1: int, i0: int, i1: int, d1: int, d2: int, ld: int) -> bool:
+    """
+    pre: 0 <= k0 < 10 and 0 <= k1 < 10 and 0 <= ld < 5
+    post: _
+    """
+    if skip(locals()):
+        return True
+    if all(k0 != q for q in QUICK_MENU) or all(k1 != q for q in QUICK_MENU) or ld == 1:
+        return True
+    return a64_seq2(k0, k1, i0, i1, d1, d2, ld)
+
+
 def x86_seq2(k0: int, k1: int, i0: int, i1: int, d1: int, d2: int, ld: int) -> bool:
     """
     pre: 0 <= k0 < 10 and 0 <= k1 < 10 and 0 <= ld < 5
@@ -579,8 +606,10 @@ def a64_seq3(k0: int, k1: int, k2: int, i0: int, i1: int, i2: int, d1: int, d2: 
 
 _B = "displacements and immediates: unbounded symbolic ints; "
 CELLS = {
-    "x86_seq2": {"fn": x86_seq2, "bound": _B + "store d1(%rax); TWO instructions from a menu of 10 (add/sub $imm on the base, copies rax->rcx->rdx->rax, add/inc on a copy, copy from a foreign register, untrackable load into a copy); load d2 through rax, rcx or rdx, also loads that overwrite their own base (pointer chasing); oracle: abstract interpretation (origin register, constant)", "budget": {"quick": 170, "thorough": 600}, "shards": 20},
-    "a64_seq2": {"fn": a64_seq2, "bound": _B + "same on AArch64 (add/sub #imm, mov copies, add xd, xn, #imm as copy+bump)", "budget": {"quick": 170, "thorough": 600}, "shards": 20},
+    "x86_seq2q": {"fn": x86_seq2q, "tiers": ("quick",), "bound": _B + "as x86_seq2 with 8 of the 10 menu entries (without sub / inc) and 4 of the 5 loads", "budget": {"quick": 170}, "shards": 20},
+    "a64_seq2q": {"fn": a64_seq2q, "tiers": ("quick",), "bound": _B + "as a64_seq2 with 8 of the 10 menu entries and 4 of the 5 loads", "budget": {"quick": 170}, "shards": 20},
+    "x86_seq2": {"fn": x86_seq2, "tiers": ("thorough",), "bound": _B + "store d1(%rax); TWO instructions from a menu of 10 (add/sub $imm on the base, copies rax->rcx->rdx->rax, add/inc on a copy, copy from a foreign register, untrackable load into a copy); load d2 through rax, rcx or rdx, also loads that overwrite their own base (pointer chasing); oracle: abstract interpretation (origin register, constant)", "budget": {"quick": 170, "thorough": 600}, "shards": 20},
+    "a64_seq2": {"fn": a64_seq2, "tiers": ("thorough",), "bound": _B + "same on AArch64 (add/sub #imm, mov copies, add xd, xn, #imm as copy+bump)", "budget": {"quick": 170, "thorough": 600}, "shards": 20},
     "x86_seq3": {"fn": x86_seq3, "tiers": ("thorough",), "bound": _B + "THREE instructions from the menu between store and load", "budget": {"thorough": 1500}, "shards": 50},
     "a64_seq3": {"fn": a64_seq3, "tiers": ("thorough",), "bound": _B + "THREE instructions from the menu between store and load", "budget": {"thorough": 1500}, "shards": 50},
     "x86_base_disp": {"fn": x86_base_disp, "bound": _B + "store d1(%rax); one of {none, add/sub $imm, inc, dec on base, add/inc on unrelated regs}; load d2(%rax|%rbx); store latency, forwarding latency 0..20", "budget": {"quick": 150, "thorough": 600}, "shards": 8},
